@@ -412,6 +412,28 @@ def check_ppoly(chk, F, E):
             ok = canon_eq(d.get(seg_field), "(this.breakpoints_.size() - 1)") or "size() - 1" in str(d.get(seg_field))
             chk.ob("C16-R4", "%s accepting exit sets the segment count" % cls, ok, loc(f, r), "state at exit: %s" % d,
                    construct="%s/accepting-exit-state" % cls)
+        # who may write the validated state: the members the initialiser writes (breakpoints, coefficients, counts, the
+        # initialised bit) are written by it and its own helpers only - any other writer (a constructor, an update
+        # overload, a 'fast path') would publish data that has not been through the rejection tests
+        guarded = {p_[1] for p_, h_, n_ in E.function_writes(f) if p_[0] == "this" and len(p_) >= 2}
+        rec_mut = {x["name"] for x in rec["fields"] if x["mutable"]}
+        guarded -= rec_mut
+        allowed = {g_["fid"] for g_ in F.reachable(f, stop=lambda h: h.get("cls") != cls)} | {f["fid"]}
+        nwr = 0
+        for g_ in F.funcs(cls):
+            if g_["fid"] in allowed or g_.get("kind") in ("copyassign", "moveassign") or g_.get("copyctor") or g_.get("movector") or g_.get("body") is None:
+                continue
+            bad = set()
+            for p_, h_, n_ in E.function_writes_local(g_):
+                if p_[0] == "this" and len(p_) >= 2 and p_[1] in guarded:
+                    rhs_ = write_rhs(n_) if isinstance(n_, dict) else None
+                    if g_.get("kind") == "ctor" and lit_value(rhs_) is not None:
+                        continue       # a constructor value-initialising the empty state (0 / false)
+                    bad.add(p_[1])
+            bad = sorted(bad)
+            nwr += 1
+            chk.ob("C16-R4", "%s::%s/%d does not write the validated state behind the initialiser's back" % (cls, g_["name"], len(g_["params"])), not bad, loc(g_),
+                   "writes %s directly" % bad if bad else "", construct="%s/who-writes/%s/%d" % (cls, g_["name"], len(g_["params"])))
         # isInitialized / getNumSegments report those members
         g = F.func1(cls, "isInitialized")
         rets = [n for n in walk(g["body"]) if n.get("k") == "return"]
